@@ -135,6 +135,24 @@ func init() {
 			return fmt.Errorf("repair.search: second loop does not start with mid := …")
 		}
 		fmt.Fprintf(out, "def bisectMid (lo hi : Int) : Int := %s\n", rp.expr(mid.Rhs[0]))
+		// scanner.scanner: is the candidate's length checked (`len(buf) < stateLen`) before the
+		// trailing magic is read? (in read mode the last chunk ends at the end of the file)
+		sc := rp.method("scanner", "scanner")
+		bounds := false
+		ast.Inspect(sc.Body, func(n ast.Node) bool {
+			if be, ok := n.(*ast.BinaryExpr); ok && be.Op == token.LSS {
+				if ce, ok := be.X.(*ast.CallExpr); ok && len(ce.Args) == 1 {
+					f, ok1 := ce.Fun.(*ast.Ident)
+					a, ok2 := ce.Args[0].(*ast.Ident)
+					y, ok3 := be.Y.(*ast.Ident)
+					if ok1 && ok2 && ok3 && f.Name == "len" && a.Name == "buf" && y.Name == "stateLen" {
+						bounds = true
+					}
+				}
+			}
+			return true
+		})
+		fmt.Fprintf(out, "def scannerBoundsCheck : Bool := %v\n", bounds)
 		out.WriteString("\nend Gsu.Gen.Repair\n")
 		return nil
 	})
